@@ -210,7 +210,7 @@ pub fn c16_worker(ctx: &mut Ctx) {
                     ctx.cnt("decimal_axis_parallel_contact_pairs", 1);
                     handle(ctx, &pc, false, &mut st, &mut n2_reported);
                 } else if which == 0 {
-                    let pc = gen_parallel_pair(&mut rng);
+                    let pc = if rng.below(2) == 0 { gen_parallel_pair(&mut rng) } else { gen_far_parallel_pair(&mut rng) };
                     if seg_rel(norm_seg(pc.s1), norm_seg(pc.s2)) == Rel::Disjoint {
                         ctx.cnt("exactly_parallel_near_coincident_pairs", 1);
                         handle(ctx, &pc, false, &mut st, &mut n2_reported);
